@@ -147,6 +147,79 @@ def marginal_dovetail(rng, overrides=False):
     return dict(kind=kind, a=a, b=b, t=t, pens=pens, ka=ka, kb=kb, bt=0 if kind == "protein" else 1, threads=rng.choice([1, 4]))
 
 
+def heavy_open_dovetail(rng):
+    """dovetail (a = X + core, b = core + Y) whose leading overhang is longer than half of the shorter sequence, so that the leading terminal gap crosses
+    the middle row of the first Hirschberg split, under a LARGE gap-open price given by the caller with small extension / terminal prices: the terminal run
+    must be priced as terminal in the forward and in the backward pass alike, a difference of (open - terminal) per pass decides the optimum here"""
+    t = rng.choice([3, 3, 4])
+    scale = 8.0 if t == 4 else 1.0
+    Cn = rng.choice([20, 30, 45, 60])
+    L = rng.randint(max(Cn + 10, 40), 110)
+    core = gen.rand_seq(rng, gen.AA, Cn)
+    a = gen.rand_seq(rng, gen.AA, L) + core
+    b = core + gen.rand_seq(rng, gen.AA, L + rng.choice([5, 25, 60]))
+    if rng.random() < 0.4:
+        a, b = b[::-1], a[::-1]          # mirror image: the long run is a trailing one
+    if rng.random() < 0.5:
+        a, b = b, a
+    ka, kb = rng.choice([(1, 1), (1, 1), (1, 1), (2, 1), (1, 2), (2, 2)])
+    pens = [rng.choice([30, 60, 100, 150]) * scale, rng.choice([1, 2]) * scale, rng.choice([0.5, 1, 2]) * scale]
+    return dict(kind="protein", a=a, b=b, t=t, pens=pens, ka=ka, kb=kb, bt=0, threads=rng.choice([1, 4]))
+
+
+def model_judge(ctx, kvh, cases, note):
+    """the whole run (`kalign_sys`) on the implementation and on the proved model; where the two alignments differ both are scored under exactly the selected
+    parameters (harness/ops_ref.c `refsp`, the reading S_T of the reference DP): a returned alignment that scores lower than the model's is a failure with
+    the sequences as input, any other difference is a disagreement of the correspondence. Same oracle as the marginal stream of C09."""
+    from concurrent.futures import ThreadPoolExecutor as _TPE
+    ml, meta = [], []
+    for d in cases:
+        seqs = [d["a"]] * d["ka"] + [d["b"]] * d["kb"]
+        pb = [fbits(float(x)) if x != -1 else "bf800000" for x in d["pens"]]
+        ml.append("kalign_sys %d %s %s %s %s" % (d["t"], pb[0], pb[1], pb[2], " ".join(seqs)))
+        meta.append((d, seqs, pb))
+    chunks = [list(range(i, len(ml), C.NCPU)) for i in range(C.NCPU)]
+    with _TPE(C.NCPU) as ex:
+        oi = list(ex.map(lambda ix: C.run_lines(kvh, [ml[i] for i in ix], env=C.SAN_ENV, timeout=900)[1] if ix else [], chunks))
+        om = list(ex.map(lambda ix: C.run_lines(C.kmodel_path(), [ml[i] for i in ix], timeout=900)[1] if ix else [], chunks))
+    impl, mod = {}, {}
+    for ix, a_, b_ in zip(chunks, oi, om):
+        for k_, i in enumerate(ix):
+            impl[i] = a_[k_] if k_ < len(a_) else ""
+            mod[i] = b_[k_] if k_ < len(b_) else ""
+    fails, diffs = [], []
+    for i, (d, seqs, pb) in enumerate(meta):
+        ctx.evaluations += 1
+        if impl[i] == mod[i]:
+            ctx.count(note + "_agree_with_model")
+            if "-" in impl[i]:
+                ctx.nontriv((d["a"], d["b"], d["t"], tuple(d["pens"]), d["ka"], d["kb"], note))
+            continue
+        dd = dict(index=i, op=ml[i], impl=impl[i], model=mod[i], note=note)
+        ri, rm = impl[i].split(), mod[i].split()
+        if not (ri and rm and ri[0] == "rc=0" and rm[0] == "rc=0" and len(ri) == len(rm) == 2 + len(seqs)):
+            diffs.append(dd)
+            continue
+        alph = 23 if d["kind"] == "protein" else 5
+        cv = C.run_lines(kvh, ["convert %d %s" % (alph, q) for q in seqs], env=C.SAN_ENV)[1]
+
+        def coderow(row, codes):
+            it = iter(codes.split(","))
+            return ",".join(next(it) if ch != "-" else "-1" for ch in row)
+        sp = []
+        for rows in (ri[2:], rm[2:]):
+            ln = "refsp %d %d %s %s %s %s" % (d["bt"], d["t"], pb[0], pb[1], pb[2], " ".join(coderow(r_, c_) for r_, c_ in zip(rows, cv)))
+            o_ = C.run_lines(kvh, [ln], env=C.SAN_ENV)[1]
+            sp.append(float(o_[0][3:]) if o_ and o_[0].startswith("sp=") else None)
+        if sp[0] is not None and sp[1] is not None and sp[0] < sp[1] - 1e-3 * (1 + abs(sp[1])):
+            fails.append(("type %d, penalties %s: the alignment returned scores %.2f, the optimum computed by the proved model scores %.2f (sum of pairs under the "
+                          "selected parameters)" % (d["t"], d["pens"], sp[0], sp[1]),
+                          dict(sequences=seqs, type=d["t"], overrides=d["pens"], rows_returned=ri[2:], rows_model=rm[2:], op=ml[i])))
+        else:
+            diffs.append(dd)
+    return fails, diffs
+
+
 def judge(ctx, kvh, todo):
     """certify each planted case with the reference DP under exactly its type and penalties, run kalign on the certified ones and compare; returns the failures"""
     conv = []
@@ -337,7 +410,14 @@ def run(ctx):
                 ka, kb = rng.choice([(1, 1), (2, 1), (1, 2), (2, 2)])
         todo.append(dict(kind=kind, a=a, b=b, t=t, pens=pens, ka=ka, kb=kb, bt=0 if kind == "protein" else 1, threads=threads))
     todo += [marginal_dovetail(rng) for _ in range(60 if ctx.quick else 600)]
+    heavy = [heavy_open_dovetail(rng) for _ in range(48 if ctx.quick else 400)]
+    todo += heavy
     fails = judge(ctx, kvh, todo)
+    # most of these are not robustly certifiable (the slack between the readings of a terminal run is one gap-open, which is large here): they are judged
+    # against the proved model instead
+    f2, d2 = model_judge(ctx, kvh, heavy, "heavy_open_dovetail")
+    fails += f2
+    diffs += d2
     for why, rep in fails[:5]:
         ctx.violation(why, dict(kind="oracle", detail=rep))
     C.report_diffs(ctx, diffs, fails, "DP kernels / controllers / profiles")
